@@ -133,17 +133,15 @@ func doCmiChecks(smi *metadata.SegmentMicroIndex, timeFilteredBlocks map[uint16]
 			continue
 		}
 
+		// a negated query wants the records that do not match, the micro indices cannot rule out a block for it
+		negateMatch := currQuery != nil && currQuery.IsNegated()
 		if isRange {
 			if wildcardCol {
-				doRangeCheckAllCol(smi, blockToCheck, rangeFilter, rangeOp, timeFilteredBlocks, qid)
+				doRangeCheckAllCol(smi, blockToCheck, rangeFilter, rangeOp, timeFilteredBlocks, negateMatch, qid)
 			} else {
-				doRangeCheckForCol(smi, blockToCheck, rangeFilter, rangeOp, timeFilteredBlocks, colsToCheck, qid)
+				doRangeCheckForCol(smi, blockToCheck, rangeFilter, rangeOp, timeFilteredBlocks, colsToCheck, negateMatch, qid)
 			}
 		} else {
-			negateMatch := false
-			if currQuery != nil && currQuery.MatchFilter != nil && currQuery.MatchFilter.NegateMatch {
-				negateMatch = true
-			}
 			if !wildCardValue && !negateMatch {
 				if wildcardCol {
 					doBloomCheckAllCol(smi, blockToCheck, bloomKeys, originalBloomKeys, bloomOp, timeFilteredBlocks, qid)
@@ -155,8 +153,10 @@ func doCmiChecks(smi *metadata.SegmentMicroIndex, timeFilteredBlocks map[uint16]
 	}
 }
 
+// The columns whose range passes are recorded as the columns to search in the block. If keepBlock is set, the block
+// stays even when no column passes (negated query: every record of such a block is wanted).
 func doRangeCheckAllCol(segMicroIndex *metadata.SegmentMicroIndex, blockToCheck uint16, rangeFilter map[string]string,
-	rangeOp sutils.FilterOperator, timeFilteredBlocks map[uint16]map[string]bool, qid uint64) {
+	rangeOp sutils.FilterOperator, timeFilteredBlocks map[uint16]map[string]bool, keepBlock bool, qid uint64) {
 
 	allCMIs, err := segMicroIndex.GetCMIsForBlock(blockToCheck, qid)
 	if err != nil {
@@ -174,13 +174,13 @@ func doRangeCheckAllCol(segMicroIndex *metadata.SegmentMicroIndex, blockToCheck 
 			matchedAny = true
 		}
 	}
-	if !matchedAny {
+	if !matchedAny && !keepBlock {
 		delete(timeFilteredBlocks, blockToCheck)
 	}
 }
 
 func doRangeCheckForCol(segMicroIndex *metadata.SegmentMicroIndex, blockToCheck uint16, rangeFilter map[string]string,
-	rangeOp sutils.FilterOperator, timeFilteredBlocks map[uint16]map[string]bool, colsToCheck map[string]bool, qid uint64) {
+	rangeOp sutils.FilterOperator, timeFilteredBlocks map[uint16]map[string]bool, colsToCheck map[string]bool, keepBlock bool, qid uint64) {
 
 	var matchedBlockRange bool
 	for colName := range colsToCheck {
@@ -208,7 +208,7 @@ func doRangeCheckForCol(segMicroIndex *metadata.SegmentMicroIndex, blockToCheck 
 			break
 		}
 	}
-	if !matchedBlockRange {
+	if !matchedBlockRange && !keepBlock {
 		delete(timeFilteredBlocks, blockToCheck)
 	}
 }
